@@ -6,6 +6,7 @@ package main
 // with "//@". See DESIGN.md §4.
 
 import (
+	"regexp"
 	"fmt"
 	"os"
 	"path/filepath"
@@ -505,6 +506,7 @@ type Clause struct {
 	Label string
 	Tags  []string // property ids
 	Expr  SExpr
+	Guard SExpr // must-call: path condition (final state) under which a matching call is demanded
 	Src   string
 	Callee string
 	Loop  int // for invariant/decreases: loop ordinal (1-based)
@@ -1041,16 +1043,40 @@ func parseClause(fc *FuncContract, word, rest, file string, line int) error {
 		}
 		fc.CallAsserts[callee] = append(fc.CallAsserts[callee], &Clause{Kind: "call-assert", Label: label, Tags: tags, Expr: e, Src: src, File: file, Line: line})
 	case "at":
-		// at "<first line of a statement>" assert [label] expr
+		// at "<first line of a statement>"[#N] assert [label] expr   (#N: the N-th statement with that text, in source order)
 		rest = strings.TrimSpace(rest)
+		ordSuffix := ""
+		if m := regexp.MustCompile(`^("(?:[^"\\]|\\.)*")#(\d+) `).FindStringSubmatch(rest); m != nil {
+			ordSuffix = "#" + m[2]
+			rest = m[1] + " " + rest[len(m[0]):]
+		}
 		if !strings.HasPrefix(rest, "\"") {
 			return fmt.Errorf("at \"stmt\" assert [label] expr")
+		}
+		if g := strings.Index(rest[1:], "\" ghost "); g >= 0 && (strings.Index(rest[1:], "\" assert") < 0 || g < strings.Index(rest[1:], "\" assert")) {
+			// at "<stmt>" ghost <name> = expr : a ghost value captured immediately before the statement
+			key := strings.Join(strings.Fields(rest[1:1+g]), " ") + ordSuffix
+			def := strings.TrimSpace(rest[1+g+len("\" ghost "):])
+			eq := strings.Index(def, "=")
+			if eq <= 0 {
+				return fmt.Errorf("at \"stmt\" ghost name = expr")
+			}
+			name := strings.TrimSpace(def[:eq])
+			e, err := parseSpecExpr(strings.TrimSpace(def[eq+1:]))
+			if err != nil {
+				return err
+			}
+			if fc.StmtAsserts == nil {
+				fc.StmtAsserts = map[string][]*Clause{}
+			}
+			fc.StmtAsserts[key] = append(fc.StmtAsserts[key], &Clause{Kind: "ghost", Label: name, Expr: e, Src: def, File: file, Line: line})
+			break
 		}
 		j := strings.Index(rest[1:], "\" assert")
 		if j < 0 {
 			return fmt.Errorf("at \"stmt\" assert [label] expr")
 		}
-		key := strings.Join(strings.Fields(rest[1:1+j]), " ")
+		key := strings.Join(strings.Fields(rest[1:1+j]), " ") + ordSuffix
 		label, tags, src := parseLabel(rest[1+j+len("\" assert"):])
 		e, err := parseSpecExpr(src)
 		if err != nil {
@@ -1072,13 +1098,26 @@ func parseClause(fc *FuncContract, word, rest, file string, line int) error {
 		fc.AllCalls = append(fc.AllCalls, &Clause{Kind: "all-calls", Label: label, Tags: tags, Expr: e, Src: callee + ": " + src, File: file, Line: line, Callee: callee})
 	case "must-call":
 		// must-call <callee> [label tags] expr   (expr over this function's names and the callee's parameter/result names)
+		//   must-call <callee> [label tags] if <guard> then <expr>: only on paths whose final state satisfies guard
 		callee, r2 := splitWord(rest)
 		label, tags, src := parseLabel(r2)
+		var guard SExpr
+		full := src
+		if t := strings.TrimSpace(src); strings.HasPrefix(t, "if ") {
+			if i := strings.Index(t, " then "); i > 0 {
+				g, err := parseSpecExpr(strings.TrimSpace(t[3:i]))
+				if err != nil {
+					return err
+				}
+				guard = g
+				src = strings.TrimSpace(t[i+len(" then "):])
+			}
+		}
 		e, err := parseSpecExpr(src)
 		if err != nil {
 			return err
 		}
-		fc.MustCalls = append(fc.MustCalls, &Clause{Kind: "must-call", Label: label, Tags: tags, Expr: e, Src: callee + ": " + src, File: file, Line: line, Callee: callee})
+		fc.MustCalls = append(fc.MustCalls, &Clause{Kind: "must-call", Label: label, Tags: tags, Expr: e, Guard: guard, Src: callee + ": " + full, File: file, Line: line, Callee: callee})
 	case "pure":
 		fc.Pure = true
 		fc.HasMod = true
